@@ -44,6 +44,7 @@ FamilySet == CASE Fam = "F1" -> {<<b>> : b \in F1Bodies}
                [] Fam = "HIDR" -> HiddenRight
                [] Fam = "OPTLR" -> OptLR
                [] Fam = "LRN" -> LRNullPrefix
+               [] Fam = "DUPS" -> DupAndSuppress
                [] Fam = "SEPC" -> {<<b>> : b \in SepComposite}
                [] Fam = "LRF" -> {<<b>> : b \in LRFreeBodies}
                [] Fam = "OPT" -> {<<b>> : b \in OptBodies}
